@@ -472,7 +472,7 @@ static inline Error X86Internal_setup_save_restore_info(RegGroup group, const Fu
     case RegGroup::kMask:
       reg_out = k(0);
       inst_out = Inst::kIdKmovq;
-      size_out = reg_out->size();
+      size_out = 8u; // KReg has no size (0), KMOVQ moves 8 bytes.
       return Error::kOk;
 
     case RegGroup::kX86_MM:
